@@ -641,4 +641,128 @@ theorem outline_list_step (cfg : Cfg) (K : Nat) (o : O) (os : List O) (ho : okO 
       simp only [nextOf] at hr ⊢
       rw [hr]; simp [expItems]
 
+theorem lns_head (col n : Nat) (o : O) (os : List O) :
+    lns col n (o :: os) = { s := dashLine col o.text, origin := n } :: (lns col n (o :: os)).tail := by
+  cases o; simp [lns, lnsO, O.text]
+
+/-- the dispatch loop standing on the first line of the lines of `os`, which run to the end of the buffer:
+    one `List` entry with the expected items, then the loop ends -/
+theorem tokLoop_outline (cfg : Cfg) (tpre tpost : List BTok) (hc : ListCfg cfg tpre tpost) (K : Nat) (o : O) (os : List O)
+    (hok : oks (o :: os) = true) (hL : ListClaim cfg K (o :: os)) (col : Nat) (hcol : col < 4)
+    (gas : Nat) (hg : needL K (o :: os) + tpre.length + 3 ≤ gas) (pre : List Line) (start : Nat) (st : St)
+    (acc : List Entry) (loose : Bool) :
+    tokLoop cfg gas ⟨pre ++ lns col (start + pre.length) (o :: os), pre.length, start⟩ st acc loose =
+      .ok ({ entries := (Entry.list (expItems col (start + pre.length) (o :: os)) (start + pre.length) (start + pre.length) :: acc).reverse,
+             loose := loose }, st) := by
+  obtain ⟨g, rfl⟩ : ∃ g, gas = ((g + 1 + tpre.length) + 1) := ⟨gas - tpre.length - 2, by omega⟩
+  have hT : plainTitle o.text = true := by
+    cases o; simp only [oks, okO, Bool.and_eq_true] at hok; exact hok.1.1
+  have hT' := (plainTitle_iff _).mp hT
+  have hp : FW.peek ⟨pre ++ lns col (start + pre.length) (o :: os), pre.length, start⟩ =
+      some { s := dashLine col o.text, origin := start + pre.length } := by
+    rw [lns_head]; exact peek_at pre _ _ start
+  have hne := dash_noEarly hT' col hcol
+  have hrl := hL col hcol g (by omega) pre start st [] none none (Or.inl ⟨rfl, rfl⟩)
+  have hend : FW.peek ⟨pre ++ lns col (start + pre.length) (o :: os), pre.length + size (o :: os), start⟩ = none := by
+    have := peek_end (pre ++ lns col (start + pre.length) (o :: os)) start
+    simpa [lns_length] using this
+  simp only [tokLoop, hp, hc.types]
+  rw [tryTypes_noEarly cfg _ st _ hne tpost g tpre hc.nl hc.np hc.nt]
+  simp only [tryTypes, dash_listStart col hcol, if_true, hrl, List.reverse_nil, List.nil_append]
+  rw [show g + 1 + tpre.length = (g + tpre.length) + 1 by omega]
+  simp only [tokLoop, hend]
+
+theorem paragraph_mem {cfg : Cfg} {tpre tpost : List BTok} (hc : ListCfg cfg tpre tpost) : BTok.paragraph ∈ cfg.types := by
+  rw [hc.types]; simp [hc.par]
+
+theorem list_mem {cfg : Cfg} {tpre tpost : List BTok} (hc : ListCfg cfg tpre tpost) : BTok.list ∈ cfg.types := by
+  rw [hc.types]; simp
+
+/-- `Paragraph.read` on the title: one line; the first line of the headings below (if any) interrupts it -/
+theorem readParagraph_title (cfg : Cfg) (tpre tpost : List BTok) (hc : ListCfg cfg tpre tpost) (so : Bool) (t : Str) (ht : PlainTitle t)
+    (n : Nat) (kids : List O) (hk : oks kids = true) :
+    readParagraph cfg so ⟨itemBuf n (.node t kids), 0, n⟩ (t ++ ['\n']) =
+      .ok ([t ++ ['\n']], false, ⟨itemBuf n (.node t kids), 1, n⟩) := by
+  unfold readParagraph
+  have hn : (FW.next ⟨itemBuf n (.node t kids), 0, n⟩) = ⟨itemBuf n (.node t kids), 1, n⟩ := rfl
+  rw [hn]
+  cases kids with
+  | nil =>
+    simp [paragraphLoop, FW.remaining, FW.peek, itemBuf, lns]
+  | cons k ks =>
+    have hT : plainTitle k.text = true := by
+      cases k; simp only [oks, okO, Bool.and_eq_true] at hk; exact hk.1.1
+    have hT' := (plainTitle_iff _).mp hT
+    have hp : FW.peek ⟨itemBuf n (.node t (k :: ks)), 1, n⟩ = some { s := dashLine 2 k.text, origin := n + 1 } := by
+      simp only [itemBuf]; rw [lns_head]; rfl
+    have hi := anyInterrupt_dash_para hT' 2 cfg _ _ hp rfl (by omega) cfg.types (list_mem hc)
+    have hnb : isBlank (dashLine 2 k.text) = false := leadN_nonblank dash_lead 2 _
+    simp only [FW.remaining, paragraphLoop, hp, hnb, Bool.false_eq_true, if_false, hi]
+    simp
+
+theorem outline_item_step (cfg : Cfg) (tpre tpost : List BTok) (hc : ListCfg cfg tpre tpost) (t : Str) (kids : List O)
+    (ho : okO (.node t kids) = true) (hL : kids ≠ [] → ListClaim cfg (cfg.types.length + 4) kids) :
+    ItemClaim cfg (cfg.types.length + 4) (.node t kids) := by
+  intro gas hg n st
+  simp only [okO, Bool.and_eq_true] at ho
+  have hT := (plainTitle_iff _).mp ho.1
+  have hlen : tpre.length + 1 ≤ cfg.types.length := by rw [hc.types]; simp
+  obtain ⟨g, rfl⟩ : ∃ g, gas = g + 1 + 1 + 1 := ⟨gas - 3, by simp only [needO] at hg; omega⟩
+  have hgg : needL (cfg.types.length + 4) kids + cfg.types.length + 1 ≤ g + 1 := by simp only [needO] at hg; omega
+  have hp : FW.peek ⟨itemBuf n (.node t kids), 0, n⟩ = some { s := t ++ ['\n'], origin := n } := rfl
+  have htab : readTable ⟨itemBuf n (.node t kids), 0, n⟩ = none := by
+    have := readTable_none [] { s := t ++ ['\n'], origin := n } (lns 2 (n + 1) kids) n (by
+      intro l' hl'
+      cases kids with
+      | nil => simp [lns] at hl'
+      | cons k ks =>
+        rw [lns_head] at hl'
+        simp only [List.head?_cons, Option.some.injEq] at hl'
+        subst hl'
+        have hTk : plainTitle k.text = true := by
+          cases k; have := ho.2; simp only [oks, okO, Bool.and_eq_true] at this; exact this.1.1
+        exact dash_delimiterRow ((plainTitle_iff _).mp hTk) 2)
+    simpa [itemBuf] using this
+  have hR := readParagraph_title cfg tpre tpost hc st.setext t hT n kids ho.2
+  have hY := tryTypes_quiet cfg ⟨itemBuf n (.node t kids), 0, n⟩ st { s := t ++ ['\n'], origin := n } _ _ (title_quiet hT) htab hR
+    cfg.types (g + 1) (paragraph_mem hc) (by omega)
+  simp only [tokenizeBlock, tokLoop, hp, hY, Nat.add_zero]
+  cases kids with
+  | nil =>
+    simp [tokLoop, FW.peek, itemBuf, lns, expInner]
+  | cons k ks =>
+    have := tokLoop_outline cfg tpre tpost hc _ k ks ho.2 (hL (by simp)) 2 (by omega) (g + 1) (by omega)
+      [{ s := t ++ ['\n'], origin := n }] n st [.paragraph [t ++ ['\n']] n n] false
+    simp only [List.length_singleton, List.singleton_append] at this
+    simp only [itemBuf]
+    rw [this]
+    simp [expInner]
+
+mutual
+theorem item_ok (cfg : Cfg) (tpre tpost : List BTok) (hc : ListCfg cfg tpre tpost) :
+    ∀ (o : O), okO o = true → ItemClaim cfg (cfg.types.length + 4) o
+  | .node t kids, h =>
+    outline_item_step cfg tpre tpost hc t kids h (fun hne => list_ok cfg tpre tpost hc kids hne
+      (by simp only [okO, Bool.and_eq_true] at h; exact h.2))
+theorem list_ok (cfg : Cfg) (tpre tpost : List BTok) (hc : ListCfg cfg tpre tpost) :
+    ∀ (os : List O), os ≠ [] → oks os = true → ListClaim cfg (cfg.types.length + 4) os
+  | [], hne, _ => absurd rfl hne
+  | o :: os, _, h => by
+    simp only [oks, Bool.and_eq_true] at h
+    exact outline_list_step cfg _ o os h.1 h.2 (item_ok cfg tpre tpost hc o h.1) (fun hne => list_ok cfg tpre tpost hc os hne h.2)
+end
+
+/-- **tokenize_block on the toc lines of an outline**: one `List`, nested exactly as the outline -/
+theorem tokenizeBlock_outline (cfg : Cfg) (tpre tpost : List BTok) (hc : ListCfg cfg tpre tpost) (os : List O) (hne : os ≠ [])
+    (hok : oks os = true) (gas : Nat) (hg : needL (cfg.types.length + 4) os + cfg.types.length + 4 ≤ gas) (n : Nat) (st : St) :
+    tokenizeBlock cfg gas (lns 0 n os) n st =
+      .ok ({ entries := [.list (expItems 0 n os) n n], loose := false }, st) := by
+  cases os with
+  | nil => exact absurd rfl hne
+  | cons o os =>
+    have hlen : tpre.length + 1 ≤ cfg.types.length := by rw [hc.types]; simp
+    obtain ⟨g, rfl⟩ : ∃ g, gas = g + 1 := ⟨gas - 1, by omega⟩
+    have := tokLoop_outline cfg tpre tpost hc _ o os hok (list_ok cfg tpre tpost hc _ hne hok) 0 (by omega) g (by omega) [] n st [] false
+    simpa [tokenizeBlock] using this
+
 end Mistletoe.Block
